@@ -32,8 +32,95 @@
 #include "libavoid/assertions.h"
 #include "libavoid/junction.h"
 #include "libavoid/debughandler.h"
+#ifdef ADAPTAGRAMS_VERIF
+#include "libavoid/shape.h"
+#endif
 
 namespace Avoid {
+
+#ifdef ADAPTAGRAMS_VERIF
+// Verification hook H2: see hyperedgetree.h.
+FILE *verif_hyper_log = nullptr;
+
+static void verifHyperEnd(FILE *fp, const ConnEnd& end)
+{
+    if (end.junction())
+    {
+        fprintf(fp, " J %u", end.junction()->id());
+    }
+    else if (end.shape())
+    {
+        fprintf(fp, " S %u %u", end.shape()->id(), end.pinClassId());
+    }
+    else
+    {
+        Point p = end.position();
+        fprintf(fp, " P %.17g %.17g", p.x, p.y);
+    }
+}
+
+// H2 <tag> <conn id> <src end> <dst end>
+void verifHyperConn(FILE *fp, const char *tag, ConnRef *conn)
+{
+    std::pair<ConnEnd, ConnEnd> ends = conn->endpointConnEnds();
+    fprintf(fp, "H2 %s %u", tag, conn->id());
+    verifHyperEnd(fp, ends.first);
+    verifHyperEnd(fp, ends.second);
+    fprintf(fp, "\n");
+}
+
+// H2 ADJ <node> <degree> (<neighbour> <conn id or -1>)*
+void verifHyperAdj(FILE *fp, HyperedgeTreeNode *node)
+{
+    fprintf(fp, "H2 ADJ %p %u", (void *) node, (unsigned) node->edges.size());
+    for (std::list<HyperedgeTreeEdge *>::const_iterator curr =
+            node->edges.begin(); curr != node->edges.end(); ++curr)
+    {
+        fprintf(fp, " %p %ld", (void *) (*curr)->followFrom(node),
+                ((*curr)->conn) ? (long) (*curr)->conn->id() : -1L);
+    }
+    fprintf(fp, "\n");
+}
+
+// H2 TREE <tag> / H2 N <node> <junction id or -1> <x> <y> <source> <final
+// vertex> <dummy> / H2 E <node> <node> <conn id or -1> <fixed> / H2 ENDTREE
+void verifHyperDumpTree(FILE *fp, const char *tag, HyperedgeTreeNode *root)
+{
+    std::set<HyperedgeTreeNode *> seenNodes;
+    std::set<HyperedgeTreeEdge *> seenEdges;
+    std::list<HyperedgeTreeNode *> todo;
+    fprintf(fp, "H2 TREE %s\n", tag);
+    todo.push_back(root);
+    seenNodes.insert(root);
+    while (!todo.empty())
+    {
+        HyperedgeTreeNode *node = todo.front();
+        todo.pop_front();
+        fprintf(fp, "H2 N %p %ld %.17g %.17g %d %p %d\n", (void *) node,
+                (node->junction) ? (long) node->junction->id() : -1L,
+                node->point.x, node->point.y, (int) node->isConnectorSource,
+                (void *) node->finalVertex, (int) node->isPinDummyEndpoint);
+        for (std::list<HyperedgeTreeEdge *>::const_iterator curr =
+                node->edges.begin(); curr != node->edges.end(); ++curr)
+        {
+            HyperedgeTreeEdge *edge = *curr;
+            if (seenEdges.insert(edge).second)
+            {
+                fprintf(fp, "H2 E %p %p %ld %d\n", (void *) edge->ends.first,
+                        (void *) edge->ends.second,
+                        (edge->conn) ? (long) edge->conn->id() : -1L,
+                        (int) edge->hasFixedRoute);
+            }
+            HyperedgeTreeNode *other = edge->followFrom(node);
+            if (other && seenNodes.insert(other).second)
+            {
+                todo.push_back(other);
+            }
+        }
+    }
+    fprintf(fp, "H2 ENDTREE\n");
+}
+#endif // ADAPTAGRAMS_VERIF
 
 
 // Constructs a new hyperedge tree node.
@@ -157,6 +244,14 @@ void HyperedgeTreeNode::addConns(HyperedgeTreeEdge *ignored, Router *router,
                 conn->m_initialised = true;
                 ConnEnd connend(junction);
                 conn->updateEndPoint(VertID::src, connend);
+#ifdef ADAPTAGRAMS_VERIF
+                if (verif_hyper_log)
+                {
+                    fprintf(verif_hyper_log, "H2 NEWCONN %u %u %p %p\n",
+                            conn->id(), junction->id(), (void *) this,
+                            (void *) (*curr)->followFrom(this));
+                }
+#endif
             }
     
             // Set the connector for this edge.
@@ -228,6 +323,14 @@ void HyperedgeTreeNode::updateConnEnds(HyperedgeTreeEdge *ignored,
                     ConnEnd connend(junction);
                     edge->conn->updateEndPoint(end, connend);
                     changedConns.push_back(edge->conn);
+#ifdef ADAPTAGRAMS_VERIF
+                    if (verif_hyper_log)
+                    {
+                        fprintf(verif_hyper_log, "H2 CONNEND %u %s %u %p\n",
+                                edge->conn->id(), (forward) ? "src" : "tar",
+                                junction->id(), (void *) this);
+                    }
+#endif
                 }
             }
     
@@ -606,12 +709,27 @@ void HyperedgeTreeEdge::addConns(HyperedgeTreeNode *ignored, Router *router,
             // XXX: Create new conn here.
             conn->updateEndPoint(VertID::tar, connend);
         }
+#ifdef ADAPTAGRAMS_VERIF
+        if (verif_hyper_log)
+        {
+            fprintf(verif_hyper_log, "H2 CONNTAR %u T %p %p %d\n", conn->id(),
+                    (void *) endNode, (void *) endNode->finalVertex,
+                    (int) result);
+        }
+#endif
     }
     else if (endNode->junction)
     {
         // Or, set a ConnEnd connecting to the junction we have reached.
         ConnEnd connend(endNode->junction);
         conn->updateEndPoint(VertID::tar, connend);
+#ifdef ADAPTAGRAMS_VERIF
+        if (verif_hyper_log)
+        {
+            fprintf(verif_hyper_log, "H2 CONNTAR %u J %p %u\n", conn->id(),
+                    (void *) endNode, endNode->junction->id());
+        }
+#endif
     }
 }
 
@@ -654,6 +772,14 @@ void HyperedgeTreeEdge::updateConnEnds(HyperedgeTreeNode *ignored,
             ConnEnd connend(endNode->junction);
             unsigned short end = (forward) ? VertID::tar : VertID::src;
             conn->updateEndPoint(end, connend);
+#ifdef ADAPTAGRAMS_VERIF
+            if (verif_hyper_log)
+            {
+                fprintf(verif_hyper_log, "H2 CONNEND %u %s %u %p\n",
+                        conn->id(), (forward) ? "tar" : "src",
+                        endNode->junction->id(), (void *) endNode);
+            }
+#endif
 
             // Record that this connector was changed (so long as it wasn't 
             // already recorded).
@@ -741,6 +867,14 @@ void HyperedgeTreeEdge::splitFromNodeAtPoint(HyperedgeTreeNode *source,
     target->disconnectEdge(this);
     ends.second = split;
     split->edges.push_back(this);
+#ifdef ADAPTAGRAMS_VERIF
+    if (verif_hyper_log)
+    {
+        fprintf(verif_hyper_log, "H2 SUBDIVIDE %p %p %p %.17g %.17g %ld\n",
+                (void *) source, (void *) target, (void *) split,
+                point.x, point.y, (conn) ? (long) conn->id() : -1L);
+    }
+#endif
 }
 
 
